@@ -15,6 +15,14 @@ from .. import env, gen
 from ..pool import Pool
 
 HASHSEEDS = ['0', '1', '4242', 'random']
+OPTIONAL_KEYS = ['Gradient 1', 'Maximum Temperature', 'Surface Temperature', 'Ambient Temperature', 'Injection Temperature',
+                 'Utilization Factor', 'Water Loss Fraction', 'Reservoir Heat Capacity', 'Reservoir Density',
+                 'Reservoir Thermal Conductivity', 'Circulation Pump Efficiency', 'End-Use Efficiency Factor',
+                 'Production Well Diameter', 'Injection Well Diameter', 'Production Flow Rate per Well', 'Plant Lifetime',
+                 'Number of Production Wells', 'Number of Injection Wells', 'Production Wellbore Temperature Drop',
+                 'Injection Wellbore Temperature Gain', 'Maximum Drawdown', 'Inflation Rate During Construction',
+                 'Well Drilling Cost Correlation', 'Construction Years', 'Time steps per year', 'Electricity Rate',
+                 'Thickness 1', 'Gradient 2', 'Thickness 2', 'Gradient 3', 'Injectivity Index', 'Productivity Index']
 
 
 def _spawn(spec, hashseed, timeout=600):
@@ -76,6 +84,17 @@ def make_requests(ctx):
         v1 = t + f'\nGradient 1, {40 + 3 * i}\n'
         v2 = t + f'\nPlant Lifetime, {11 + i}\nUtilization Factor, 0.8{i}\n'
         reqs[f'q{i}'] = [t, v1, v2]
+    # sparse requests: the same kind of input with optional lines removed, so that the run relies on the documented
+    # defaults (cross-run state hiding in default objects only shows when a later request does NOT set the parameter)
+    for i, t in enumerate(texts[:ctx.pick(3, 6)]):
+        lines = t.split('\n')
+
+        def drop(keys):
+            return '\n'.join(ln for ln in lines if ln.split(',')[0].strip() not in keys) + '\n'
+        pool_ = [k for k in OPTIONAL_KEYS if any(ln.split(',')[0].strip() == k for ln in lines)]
+        rng.shuffle(pool_)
+        a, b = set(pool_[:len(pool_) // 2] + ['Gradient 1']), set(pool_[len(pool_) // 3:])
+        reqs[f's{i}'] = [drop(a), drop(b), drop(set(pool_))]
     # failing requests
     bad = texts[0] + '\nReservoir Depth, 50\n'                       # out of range
     bad2 = texts[1] + '\nEnd-Use Option, 7\n'                         # non-member option
